@@ -88,7 +88,19 @@ def replay(d):
         import mulgrids
         geo = mulgrids.mulgrid().rectangular([float(num(x)) for x in a['dx']], [float(num(x)) for x in a['dy']],
                                              [float(num(x)) for x in a['dz']], atmos_type=a['atmos_type'])
-        g = T.t2grid().fromgeo(geo)
+        if a.get('surf'):
+            for ci, s_ in a['surf']:
+                s_ = float(num(s_))
+                for lay in geo.layerlist:       # a surface meant to lie exactly on a layer boundary stays there in floats
+                    for z_ in (lay.top, lay.bottom):
+                        if abs(s_ - z_) <= 1e-9 * max(1., abs(z_)): s_ = z_
+                geo.columnlist[ci].surface = s_
+            geo.setup_block_name_index(); geo.setup_block_connection_name_index()
+        try:
+            g = T.t2grid().fromgeo(geo)
+        except Exception as ex:
+            msg = 'fromgeo(rectangular %r) raised %s: %s' % (a, type(ex).__name__, ex)
+            return (clause == 'raised' and bool(a.get('surf'))), msg
         b0, c0 = describe(g)
         objs_b, objs_c = list(g.blocklist), list(g.connectionlist)
         bn = [b.name for b in g.blocklist][::-1]
@@ -120,6 +132,43 @@ def replay(d):
         return False, '%s: clause %r holds (violated: %r)' % (head, clause, bad)
     pre = d['pre']
     g, blocks, rocks, cons = build(T, pre)
+    if op == 'writeread':
+        import tempfile, shutil
+        import numpy as np
+        import t2data as TD
+        sh, names = pre['shape'], pre['bnames']
+        nb, k = sh['nb'], len(sh['cons'])
+        for i, b in enumerate(blocks): b.centre = np.array([1.0 * i, 2.0, 3.0])
+        dat = TD.t2data(); dat.grid = g
+        border, corder = list(range(nb))[::-1], list(range(k))[::-1]
+        bad = {}
+        tmp = tempfile.mkdtemp()
+        try:
+            g.reorder([names[i] for i in border], [(names[sh['cons'][q][1]], names[sh['cons'][q][0]]) for q in corder] or None)
+            if a.get('rename'): g.rename_blocks(dict((x, y) for x, y in a['rename']), fix_blocknames=False)
+            want_names = [blocks[i].name for i in border]
+            want_rocks = [blocks[i].rocktype.name for i in border]
+            want_pairs = [tuple(b.name for b in cons[q].block) for q in corder]
+            fn = os.path.join(tmp, 'c09.dat')
+            dat.write(fn)
+            g2 = TD.t2data(fn).grid
+            if [r.name for r in g2.rocktypelist] != pre['rnames']:
+                bad['rocktypes-listed'] = 'rock types read back %r, written %r' % ([r.name for r in g2.rocktypelist], pre['rnames'])
+            if [b.name for b in g2.blocklist] != want_names:
+                bad['block-order'] = 'blocks read back %r, written %r' % ([b.name for b in g2.blocklist], want_names)
+            got = [(b.rocktype.name, g2.rocktypelist.index(b.rocktype)) for b in g2.blocklist]
+            want = [(n, pre['rnames'].index(n)) for n in want_rocks]
+            if got != want:
+                bad['block-rocktype'] = 'blocks %r written with rock types (name, position) %r come back with %r' % (want_names, want, got)
+            gotp = [tuple(b.name for b in x.block) for x in g2.connectionlist]
+            if gotp != want_pairs: bad['connection-order'] = 'connections read back %r, written %r' % (gotp, want_pairs)
+        except Exception as ex:
+            bad['raised'] = 'raised %s: %s' % (type(ex).__name__, ex)
+        finally:
+            shutil.rmtree(tmp, ignore_errors=True)
+        head = 'rock types %r, blocks %r: reorder (all reversed)%s, write, read' % (pre['rnames'], names, ', rename %r' % a['rename'] if a.get('rename') else '')
+        if clause in bad: return True, '%s: %s' % (head, bad[clause])
+        return False, '%s: clause %r holds (violated clauses: %r)' % (head, clause, bad)
     b0, c0 = describe(g)
     names = pre['bnames']
     if op == 'reorder':
@@ -225,13 +274,25 @@ def replay(d):
         bad = {}
         ta, tb = sum(b.volume for b in res.blocklist), sum(v0)
         if abs(ta - tb) > RTOL * max(abs(tb), sum(abs(x) for x in v0 + v2)): bad['total-volume'] = 'total volume %r -> %r' % (tb, ta)
-        for i, b in enumerate(blocks):
-            ev = v0[i] - sum(v2) if i == a['host'] else v0[i]
-            if abs(b.volume - ev) > RTOL * (abs(ev) + sum(abs(x) for x in v2)): bad['host-volumes'] = 'host block %d volume %r expected %r' % (i, b.volume, ev)
-        for i, b in enumerate(blocks2):
-            if b.volume != v2[i]: bad['sub-volumes'] = 'sub block %d volume %r -> %r' % (i, v2[i], b.volume)
-        if [id(b) for b in res.blocklist] != [id(b) for b in blocks + blocks2]: bad['block-lists'] = 'result block list differs'
-        if [id(x) for x in res.connectionlist] != [id(x) for x in cons + cons2 + [con]]: bad['connection-lists'] = 'result connection list differs'
+        # the result is read by list position and name (an embed that copies its operands is judged by the same clauses)
+        names_b = list(pre['bnames']) + list(a['other']['bnames'])
+        pairs_c = [tuple(names_b[i] for i in pr) for pr in pre['shape']['cons']] + \
+                  [tuple(a['other']['bnames'][i] for i in pr) for pr in a['other']['shape']['cons']] + \
+                  [(pre['bnames'][a['host']], a['other']['bnames'][a['sub']])]
+        rb = list(res.blocklist)
+        if [b.name for b in rb] != names_b: bad['block-lists'] = 'result block list %r, expected %r' % ([b.name for b in rb], names_b)
+        else:
+            for i in range(len(blocks)):
+                ev = v0[i] - sum(v2) if i == a['host'] else v0[i]
+                if abs(rb[i].volume - ev) > RTOL * (abs(ev) + sum(abs(x) for x in v2)): bad['host-volumes'] = 'host block %d volume %r expected %r' % (i, rb[i].volume, ev)
+            for i in range(len(blocks2)):
+                if rb[len(blocks) + i].volume != v2[i]: bad['sub-volumes'] = 'sub block %d volume %r -> %r' % (i, v2[i], rb[len(blocks) + i].volume)
+        got_c = [tuple(b.name for b in x.block) for x in res.connectionlist]
+        if got_c != pairs_c: bad['connection-lists'] = 'result connection list %r, expected %r' % (got_c, pairs_c)
+        else:
+            ec = res.connectionlist[-1]
+            if list(ec.distance) != [float(num(cd['d'][0])), float(num(cd['d'][1]))] or ec.area != float(num(cd['area'])) or ec.dircos != float(num(cd['dircos'])):
+                bad['embedding-connection'] = 'embedding connection carries %r %r %r' % (list(ec.distance), ec.area, ec.dircos)
         head = 'embed(%r) host volumes %r sub volumes %r' % (a, v0, v2)
     else:
         return False, 'unknown op %r' % op
